@@ -311,14 +311,21 @@ func (e *Enc) encLockOp(v ssa.Value, c *ssa.CallCommon, ci *calleeInfo, st *Stat
 	case "(*sync.Cond).Wait":
 		op = "Wait"
 	case "(*sync.Cond).Signal", "(*sync.Cond).Broadcast":
-		// no effect on the lock state; if the contracts declare the ghost counter n_wake, every wake-up
-		// call of this goroutine is counted (so that "a release is followed by a wake-up" can be stated)
-		if gv, ok := e.w.CS.Ghosts["n_wake"]; ok && e.mode == ModeInt {
-			key := "G:n_wake"
-			gs := e.st.ghostSort(gv.Sort)
-			e.regKey(key, gs)
-			old := e.get(st, key, gs)
-			e.set(st, key, gs, fmt.Sprintf("(ite %s (+ %s 1) %s)", guard, old, old))
+		// no effect on the lock state; if the contracts declare the ghost array `wakes`, every wake-up
+		// call of this goroutine is counted per monitor: wakes[slot(x.m)] for the condition variable that
+		// the contracts declare to guard mutex field m of x (so that "a release of THIS monitor is
+		// followed by a wake-up of ITS waiters" can be stated; another monitor's signal does not count)
+		if gv, ok := e.w.CS.Ghosts["wakes"]; ok && e.mode == ModeInt && len(c.Args) > 0 {
+			if m := e.condOf(c.Args[0]); m.ok {
+				key := "G:wakes"
+				gs := e.st.ghostSort(gv.Sort)
+				e.regKey(key, gs)
+				old := e.get(st, key, gs)
+				slot := fmt.Sprintf("(fslot %s %d)", m.obj, fieldSlotID(m.structT, m.field))
+				e.set(st, key, gs, fmt.Sprintf("(ite %s (store %s %s (+ (select %s %s) 1)) %s)", guard, old, slot, old, slot, old))
+			} else {
+				e.note(fmt.Sprintf("%s: wake-up on an unidentified condition variable at %s (not counted)", e.key, e.pos(pos)))
+			}
 		}
 		return true
 	default:
